@@ -17,7 +17,7 @@ TIERS = {
     "quick": {"bases": ["keep_duplicates", "base10_maths", "osc_maths"], "depth2": 700, "sim": 150, "workers": 6},
     "thorough": {"bases": list(bases.SHIPPED), "depth2": None, "sim": 600, "workers": 6},
 }
-WHAT = {"s2n": "string_to_node", "s2n_evalf": "string_to_node(evalf=True)", "fit": "fit_from_string", "fit_rf": "fit_from_string(replace_floats=True)",
+WHAT = {"s2n": "string_to_node", "s2n_evalf": "string_to_node(evalf=True)", "s2n_ops": "string_to_node(check_ops=True)", "fit": "fit_from_string", "fit_rf": "fit_from_string(replace_floats=True)",
         "aif": "string_to_aifeyn", "aif_rf": "string_to_aifeyn(replace_floats=True)"}
 GROUPED = ("replacement_changes_only_constants", "no_parameter_in_exponent", "replacement_keeps_constants_apart",
            "replacement_keeps_parameter_identity")
